@@ -19,6 +19,10 @@ CHECKS = {
          'Every combination of nesting depth 1..3 (thorough 1..5), owning level, per-level in-place/returned call path, read/write access and 11 invocation routes (direct, containers, builtin callbacks, try, call, spawn, fn.spawn, vm.Get+vm.Call from Go) is rendered to source and run on the real pipeline and on the reference interpreter; the escaped closure is invoked twice and a sibling closure over the same binding is read afterwards.',
          'Trusted: the reference interpreter. One known finding (capture across a returned frame) is matched by a generator-side structural tag; any other disagreement is a violation.',
          'E1 progen+refsem', '4 C02'),
+ 'C05': ('exploration', 'bounded-exhaustive enumeration of Go map iteration orders at every dynamic map-range site (source-to-source seam generated at check time) x corpus programs',
+         'tools/mapseam rewrites all 59 range-over-map sites of the risor packages into a harness-controlled iterator (build overlay; /repo untouched). For every corpus program and every dynamic site it executes, every alternative order of that one site (all permutations for <= 3 keys; reverse, rotations, boundary swaps above) is forced; value, error text, output, MarshalCode bytes and re-marshalled bytes must equal the base order.',
+         'Trusted: the go/types-based rewriter finds every range over a map (sites are listed in .work/seam-*/sites.json); dependence on memory addresses and on timing is not covered.',
+         'E6 mapseam', '4 C05'),
  'C06': ('model_checking', 'stateless model checking of the implementation: controlled scheduler over the hooked goroutines, every cancellation instant x every schedule up to a deviation bound, promptness counted in VM instructions',
          'Every combination of child prefix (go/spawn/fn.spawn, looping or blocked, nested to depth 2-3) x main shape (5 loop forms, recursion, 5 blocked operations, 7 callback-carrying builtins) x cancellation instant (every VM instruction of the main task is a scheduling point; the canceller gate opens at point k or when the system is idle) is run under internal/dsched; every schedule with at most 1 (thorough 2) deviations of canceller, watcher goroutines, children and main is enumerated. Oracle: Eval returns the context error, at most 3 instructions are dispatched by a VM whose halt flag is set, no blocked operation survives the cancel, and after Eval returned every started task ends within the drain horizon.',
          'Trusted: the verif hooks cover every blocking operation and goroutine start of the packages involved; a granted operation that was enabled only by a cancelled context and does not return within 10 s (twice) is reported as blocked forever. Real-time latency is not measured.',
